@@ -536,6 +536,46 @@ class debug_logging:
             self.lg.removeHandler(self.h)
 
 
+def reevaluation_case(ctx, prop, rng):
+    """the SAME operator objects applied again (as the solver does generation after generation, and when a population is evaluated a second time):
+    speciation + selection on a population, then speciation + selection once more on the same individuals (the representatives are redrawn).
+    Every input population and every reported evaluation result of the first pass must still be what it was (C11); the second pass must report
+    an evaluation of ITS population (C10)."""
+    pop = gen_population(rng)
+    nq = pop.individuals[0].n_qubits
+    evaluator = FakeEvaluator(nq, None, None)
+    events = []
+    tk = G.Tokens()
+    sp = EVQESpeciation(rng.choice([0, 1, 2, 3]), rng.randrange(2**31))
+    sel = EVQESelection(0.5, 0.25, rng.random() < 0.5, 2, rng.randrange(2**31))
+    inp = {"reevaluation": True, "pop": pop_json(pop, tk), "token_values": {str(k): v for k, v in tk.back.items()}}
+    ctx.case(inp, nontrivial=len(pop.individuals) >= 3, tags=["same-operator-objects-applied-again"])
+    snaps = []
+    with ThreadPoolExecutor(max_workers=1) as ex:
+        ctxt = OperatorContext(circuit_evaluator=evaluator, result_callback=lambda r: events.append(r),
+                               circuit_evaluation_count_callback=lambda n: None, parallel_executor=ex)
+        for round_no in range(rng.randint(2, 3)):
+            try:
+                p1 = sp.apply_operator(pop, ctxt)
+                snaps.append((f"the input population of selection (pass {round_no})", p1, pop_struct(p1), pop_struct))
+                n_ev = len(events)
+                sel.apply_operator(p1, ctxt)
+            except Exception as e:  # noqa: BLE001
+                if prop == "C10":
+                    ctx.violate("speciation + selection did not complete when the same operator objects were applied again", inp, repr(e)[:200], key="C10:reeval:raises")
+                return
+            for r in events[n_ev:]:
+                snaps.append((f"the evaluation result reported in pass {round_no}", r, result_struct(r), result_struct))
+                if prop == "C10" and pop_struct(r.population) != pop_struct(p1):
+                    ctx.violate("selection reported an evaluation whose population is not the population it was applied to", inp, None, key="C10:reeval:population")
+            if prop == "C11":
+                for label, obj, snap, fn in snaps:
+                    if fn(obj) != snap:
+                        ctx.violate(f"{label} was modified when the same operator objects were applied again (pass {round_no})", inp,
+                                    {"before": str(snap)[:300], "after": str(fn(obj))[:300]}, key="C11:reeval:modified")
+                        return
+
+
 def run_cluster(ctx, prop):
     rng = ctx.rng
     if not check_recorder_stream():
@@ -546,6 +586,10 @@ def run_cluster(ctx, prop):
         with debug_logging(it % 3 == 1):
             ctx.dist["logging:DEBUG" if it % 3 == 1 else "logging:default"] += 1
             Run(ctx, prop, rng, workers=rng.choice([1, 1, 3])).run(gen_population(rng), gen_sequence(rng))
+    for it in range(ctx.n(20, 300)):
+        if ctx.out_of_time():
+            break
+        reevaluation_case(ctx, prop, rng)
     # a numerically misbehaving evaluator (NaN / infinite values for some individuals): C11's clauses only
     if prop == "C11":
         for it in range(ctx.n(16, 200)):
